@@ -427,6 +427,11 @@ pub fn parser_path(
                     }
                     rf.feed_str(&text);
                 }
+                Step::Charset(c) if rf.st != crate::spec::recog::St::Ground && matches!(c.as_str(), "@" | "G" | "8") => {
+                    // which mode governs a sequence that straddles a switch is unspecified
+                    cov.hit("stop_parser_path_switch_inside_a_sequence");
+                    return Ok(());
+                }
                 Step::Charset(c) => match c.as_str() {
                     "@" => {
                         if !dec.pending.is_empty() {
